@@ -10,6 +10,7 @@
 From Coq Require Import List NArith Bool Lia.
 From Verif Require Import gen.GoLoops.
 From Verif Require Model.Proxy Model.Throttle Model.Admission.
+From Coq Require String.
 Import ListNotations.
 Open Scope N_scope.
 Open Scope list_scope.
@@ -42,5 +43,10 @@ Lemma go_num_waiting : forall s hs wp,
   let '(w, effs) := num_waiting s hs (0, []) in
   Throttle.waiting_loop s hs 0 wp = (w, fold_left Throttle.set_mark effs wp).
 Proof. intros. exact (go_num_waiting_gen s hs 0 [] wp). Qed.
+
+
+(* the loop reads exactly these inputs, by name (the lemmas instantiate them by position) *)
+Lemma go_num_waiting_inputs : LoopInputs.loop_num_waiting_inputs = [].
+Proof. reflexivity. Qed.
 
 Print Assumptions go_num_waiting.
